@@ -1332,6 +1332,69 @@ fn hex_streams(cx: &mut Ctx) {
 		}
 		cx.out.line(&lhs, &rhs);
 	}
+	// the other decoders from hex strings in the anchor files: Hash::from_hex, ShortId::from_hex,
+	// BlockHeader::from_pre_pow_and_proof (hex of the pre-pow part + nonce + proof -> header). Oracle
+	// only: a value or an error, never a panic, never more than a small multiple of the string.
+	{
+		let mut all: Vec<String> = strings.clone();
+		// around honest pre-pow strings: truncated at every length class, a non-hex / multi-byte
+		// character at every tenth offset, extended, upper case
+		global::set_local_chain_type(ChainTypes::AutomatedTesting);
+		let h = mined_header(&mut r);
+		let pp = h.pre_pow();
+		let good: String = pp[..pp.len().saturating_sub(8)].iter().map(|b| format!("{:02x}", b)).collect();
+		for cut in [0usize, 1, 2, 3, 4, 19, 20, 21, good.len() / 2, good.len().saturating_sub(2), good.len().saturating_sub(1), good.len()].iter() {
+			all.push(good[..(*cut).min(good.len())].to_string());
+		}
+		for i in (0..good.len()).step_by(10) {
+			for c in ["g", "€", "é", " ", "+"].iter() {
+				let mut m = good.clone();
+				m.replace_range(i..i + 1, c);
+				all.push(m);
+			}
+		}
+		all.push(format!("{}00", good));
+		all.push(format!("{}{}", good, good));
+		all.push(good.to_uppercase());
+		all.push(good.clone());
+		let mut outcomes: BTreeMap<String, u64> = BTreeMap::new();
+		for s in &all {
+			let s1 = s.clone();
+			let (r1, m1) = measured(move || Hash::from_hex(&s1).is_ok());
+			let s2 = s.clone();
+			let (r2, m2) = measured(move || ShortId::from_hex(&s2).is_ok());
+			let (s3, nonce, proof) = (s.clone(), h.pow.nonce, h.pow.proof.clone());
+			let (r3, m3) = measured(move || BlockHeader::from_pre_pow_and_proof(s3, nonce, proof).is_ok());
+			for (name, r, m) in [("Hash::from_hex", r1, m1), ("ShortId::from_hex", r2, m2), ("BlockHeader::from_pre_pow_and_proof", r3, m3)] {
+				let cls = match &r {
+					Ok(true) => "ok",
+					Ok(false) => "err",
+					Err(_) => "panic",
+				};
+				*outcomes.entry(format!("{} -> {}", name, cls)).or_insert(0) += 1;
+				if let Err(msg) = &r {
+					cx.oracle_fails += 1;
+					cx.out.raw(&format!("#ORACLE-FAIL C11 panic in {} ({}) on the string with UTF-8 bytes {}", name, msg.replace('\n', " "), hex(s.as_bytes())));
+				}
+				if m > 16 * s.len() + 4096 {
+					cx.oracle_fails += 1;
+					cx.out.raw(&format!("#ORACLE-FAIL C11 over-allocation in {}: {} bytes for the string {}", name, m, hex(s.as_bytes())));
+				}
+			}
+		}
+		// the honest string must rebuild the header
+		let (s3, nonce, proof) = (good.clone(), h.pow.nonce, h.pow.proof.clone());
+		match catch(move || BlockHeader::from_pre_pow_and_proof(s3, nonce, proof)) {
+			Ok(Ok(r)) if r == h => {}
+			other => {
+				cx.oracle_fails += 1;
+				cx.out.raw(&format!("#ORACLE-FAIL C11 BlockHeader::from_pre_pow_and_proof does not rebuild the header from its own pre-pow hex {}: {:?}", good, other.map(|x| x.map(|_| "another header").map_err(|e| format!("{:?}", e)))));
+			}
+		}
+		for (k, v) in outcomes.iter() {
+			cx.out.raw(&format!("#STAT hex decoders: {}: {}", k, v));
+		}
+	}
 	// MerkleProof::from_hex
 	let mut hexes: Vec<String> = vec!["zz".into(), "0".into(), "".into(), "00".into(), "€a".into(), " 0x00 ".into()];
 	for _ in 0..budget(cx, 200, 1000) {
